@@ -3,7 +3,10 @@ package certs
 // C18 — certificates, id chunks and names round-trip (WriteTo / ReadFrom and the
 // PEM wrappers); a label or chunk that does not fit the format is rejected by
 // the encoder; whatever ReadFrom accepts re-encodes to something that decodes
-// to the same value.
+// to the same value. Every decode from a reader is repeated with the same bytes
+// delivered in pieces (wire.Delivery: short reads, (0, nil) results,
+// end-of-stream reported with the last bytes) and must give the same result,
+// including the fingerprint and the retained raw bytes computed while reading.
 
 import (
 	"bytes"
@@ -44,7 +47,14 @@ func c18NameEq(a, b Name) bool { return a.Type == b.Type && bytes.Equal(a.Label,
 // ---------------------------------------------------------------------------
 // Name (A)
 
-func c18NameRunA(c c18Name, v *vlib.Verdict) {
+// c18NameCase is a name plus the delivery pattern under which its encoding is
+// decoded a second time (zero value: in one piece only).
+type c18NameCase struct {
+	c18Name
+	Dlv wire.Delivery `json:"dlv"`
+}
+
+func c18NameRunA(c c18NameCase, v *vlib.Verdict) {
 	name := c.value()
 	fits := c.Len <= c18MaxLabel
 	v.NonTrivial = wire.AtLimit(c.Len) || !c18KnownIDType(c.Type)
@@ -97,6 +107,16 @@ func c18NameRunA(c c18Name, v *vlib.Verdict) {
 		if !fits {
 			v.Label("beyond-assumed-limit-but-round-trips")
 		}
+		wire.Redeliver(v, "C18", "certs.Name", enc, true, c.Dlv, true, len(enc), func(st *wire.Stream) (string, string, error) {
+			var again Name
+			if _, err := again.ReadFrom(st); err != nil {
+				return "", "", err
+			}
+			if !c18NameEq(got, again) {
+				return "Name", fmt.Sprintf("type %d/%d bytes instead of type %d/%d bytes", again.Type, len(again.Label), got.Type, len(got.Label)), nil
+			}
+			return "", "", nil
+		})
 		return
 	}
 	if !fits {
@@ -115,12 +135,12 @@ func c18NameRunA(c c18Name, v *vlib.Verdict) {
 	}
 }
 
-func c18NameGen(t *rapid.T) c18Name {
-	return c18Name{Type: rapid.IntRange(0, 255).Draw(t, "type"), Len: wire.DrawLen(t, "len", 70000), Seed: rapid.Uint64().Draw(t, "seed")}
+func c18NameGen(t *rapid.T) c18NameCase {
+	return c18NameCase{c18Name{Type: rapid.IntRange(0, 255).Draw(t, "type"), Len: wire.DrawLen(t, "len", 70000), Seed: rapid.Uint64().Draw(t, "seed")}, wire.DrawDelivery(t)}
 }
 
 func TestVerifC18NameEncDec(t *testing.T) {
-	vlib.Drive(t, vlib.Spec[c18Name]{ID: "C18", Quick: 6000, Gen: c18NameGen, Run: c18NameRunA})
+	vlib.Drive(t, vlib.Spec[c18NameCase]{ID: "C18", Quick: 6000, Gen: c18NameGen, Run: c18NameRunA})
 }
 
 // all 256 id types x all label lengths 0..260
@@ -136,13 +156,13 @@ func TestVerifC18NameSweep(t *testing.T) {
 			if !rec.Mine(i) {
 				continue
 			}
-			if !vlib.Each(t, rec, c18Name{Type: typ, Len: l, Seed: uint64(i)}, c18NameRunA) {
+			if !vlib.Each(t, rec, c18NameCase{c18Name{Type: typ, Len: l, Seed: uint64(i)}, wire.DeliveryFor(uint64(i))}, c18NameRunA) {
 				return
 			}
 		}
 	}
 	rec.SetExhaustive(true)
-	rec.Extra("enumerated", "all 256 id types x label lengths 0..260")
+	rec.Extra("enumerated", "all 256 id types x label lengths 0..260; delivery pattern cycled through wire.DeliveryFor")
 }
 
 // ---------------------------------------------------------------------------
@@ -158,6 +178,30 @@ type c18Cert struct {
 	// FillTo > 0: one more name is appended so that the serialized chunk has
 	// exactly FillTo bytes (when a label length in 0..300 achieves that).
 	FillTo int `json:"fill,omitempty"`
+	// how the bytes are handed to the readers the second time (zero value: in one piece only)
+	Dlv wire.Delivery `json:"dlv"`
+}
+
+// c18CertRedeliver decodes in again under the delivery pattern d; whole is what
+// Certificate.ReadFrom made of the bytes in one piece. Besides the wire fields
+// the data computed while reading (fingerprint, retained raw bytes) must agree.
+func c18CertRedeliver(v *vlib.Verdict, in []byte, sentinel bool, d wire.Delivery, accepted bool, consumed int, whole *Certificate) {
+	wire.Redeliver(v, "C18", "certs.Certificate", in, sentinel, d, accepted, consumed, func(st *wire.Stream) (string, string, error) {
+		again := new(Certificate)
+		if _, err := again.ReadFrom(st); err != nil {
+			return "", "", err
+		}
+		if f, d := c18CertDiff(whole, again); f != "" {
+			return f, d, nil
+		}
+		if again.Fingerprint != whole.Fingerprint {
+			return "Fingerprint", fmt.Sprintf("%x instead of %x", again.Fingerprint[:8], whole.Fingerprint[:8]), nil
+		}
+		if !bytes.Equal(again.raw.Bytes(), whole.raw.Bytes()) {
+			return "raw", fmt.Sprintf("%d retained bytes instead of %d", again.raw.Len(), whole.raw.Len()), nil
+		}
+		return "", "", nil
+	})
 }
 
 func (c c18Cert) names() []Name {
@@ -312,6 +356,9 @@ func c18CertRunA(c c18Cert, v *vlib.Verdict) {
 		}
 		return
 	}
+	if c18CertRedeliver(v, enc, true, c.Dlv, true, len(enc), got); !v.OK() {
+		return
+	}
 	if !fits {
 		v.Label("beyond-assumed-limit-but-round-trips")
 		return
@@ -363,6 +410,23 @@ func c18CertRunA(c c18Cert, v *vlib.Verdict) {
 			return
 		}
 	}
+	// the PEM stream reader under the delivery pattern (it reads to the end of the stream)
+	two := append(append([]byte(nil), pemBytes...), pemBytes...)
+	wire.Redeliver(v, "C18", "certs.ReadManyCertificatesPEM", two, false, c.Dlv, true, len(two), func(st *wire.Stream) (string, string, error) {
+		again, err := ReadManyCertificatesPEM(st)
+		if err != nil {
+			return "", "", err
+		}
+		if len(again) != len(many) {
+			return "count", fmt.Sprintf("%d certificates instead of %d", len(again), len(many)), nil
+		}
+		for i := range again {
+			if f, d := c18CertDiff(&many[i], &again[i]); f != "" {
+				return f, fmt.Sprintf("certificate %d: %s", i, d), nil
+			}
+		}
+		return "", "", nil
+	})
 }
 
 var c18Times = []int64{0, 1, 1<<31 - 1, 1 << 31, 1<<32 - 1, 1 << 32, 1700000000, 253402300799, 253402300800, 1<<62 - 1, 1 << 62}
@@ -408,6 +472,7 @@ func c18CertGen(t *rapid.T) c18Cert {
 		Issued:  c18TimeGen(t, "iss"),
 		Expires: c18TimeGen(t, "exp"),
 		Seed:    rapid.Uint64().Draw(t, "seed"),
+		Dlv:     wire.DrawDelivery(t),
 	}
 	if rapid.Bool().Draw(t, "knowntype") {
 		c.Type = 1 + c.Type%3
@@ -485,19 +550,23 @@ func c18CertRunB(c c18CertB, v *vlib.Verdict) {
 	enc, fields := c18HandEncode(cert)
 	in := wire.Mutate(enc, fields, c.Muts, 0)
 	if len(c.Muts) == 0 {
-		c18CertBytesB(in, cert, v)
+		c18CertBytesB(in, cert, c.Base.Dlv, v)
 	} else {
-		c18CertBytesB(in, nil, v)
+		c18CertBytesB(in, nil, c.Base.Dlv, v)
 	}
 }
 
 // c18CertBytesB is the decode -> encode -> decode oracle on raw bytes. valid,
 // when not nil, is the value the bytes were built from by hand (unmutated).
-func c18CertBytesB(in []byte, valid *Certificate, v *vlib.Verdict) {
+// dlv: the delivery pattern under which the bytes are decoded once more.
+func c18CertBytesB(in []byte, valid *Certificate, dlv wire.Delivery, v *vlib.Verdict) {
 	st := &wire.Stream{Data: in}
 	val := new(Certificate)
 	var err error
 	if vlib.Guard(v, func() { _, err = val.ReadFrom(st) }) {
+		return
+	}
+	if c18CertRedeliver(v, in, false, dlv, err == nil, st.Consumed, val); !v.OK() {
 		return
 	}
 	if cert := valid; cert != nil {
@@ -577,7 +646,7 @@ func FuzzVerifC18Certificate(f *testing.F) {
 	}
 	f.Fuzz(func(t *testing.T, in []byte) {
 		var v vlib.Verdict
-		c18CertBytesB(in, nil, &v)
+		c18CertBytesB(in, nil, wire.DeliveryFor(wire.Hash64(in)), &v)
 		for _, vi := range v.Violations {
 			if !vlib.KnownOpen(vi.Sig) {
 				t.Fatalf("VERIF-VIOLATION sig=%s detail=%s", vi.Sig, vi.Detail)
